@@ -50,6 +50,10 @@ type vsScenario struct {
 	slowRead  bool
 	poll      bool // polling reader + raw small-piece sender (vsRunPoll)
 	jitter    bool // delays in front of the sender's Control calls (vsJitterPoll), large back-to-back payloads
+	bidi      bool // both endpoints are netpoll connections sending and reading at the same time (vsRunBidi, streamh_bidi.go)
+	handlerB  bool // bidi: endpoint B consumes in OnRequest (handler = endpoint A)
+	reply     bool // a raw peer replies and ends its stream while our flush is parked (vsRunReply, streamh_bidi.go)
+	burst     bool // the sender starts with one flush of 33+ non-empty output nodes (more than the iovec barrier holds)
 }
 
 // vsJitterPoll forwards to the real poll; Control is preceded by a pause of 0 or 0.3 ms (seeded).
@@ -94,6 +98,42 @@ func vsSend(s vsScenario, c Connection, r *rand.Rand, ops map[string]int) error 
 		return p
 	}
 	pendingFlush := false
+	// burst: one flush whose output buffer holds 34..48 non-empty nodes (each Malloc / WriteBinary of 4..8 KiB makes a
+	// node of its own) - more than one GetBytes call / one sendmsg can take (barriercap vectors)
+	burst := func() error {
+		ops["Burst"]++
+		k := 34 + r.Intn(15)
+		for j := 0; j < k && pos < s.total; j++ {
+			n := 4096
+			if r.Intn(2) == 0 {
+				n += r.Intn(4097)
+			}
+			if n > s.total-pos {
+				n = s.total - pos
+			}
+			if r.Intn(2) == 0 {
+				p, err := w.Malloc(n)
+				if err != nil {
+					return fmt.Errorf("writer op at %d: %v", pos, err)
+				}
+				fill(p, pos)
+			} else if _, err := w.WriteBinary(mk(n, pos)); err != nil {
+				return fmt.Errorf("writer op at %d: %v", pos, err)
+			}
+			pos += n
+		}
+		ops["Flush"]++
+		pendingFlush = false
+		if err := w.Flush(); err != nil {
+			return fmt.Errorf("flush at %d: %v", pos, err)
+		}
+		return nil
+	}
+	if s.burst {
+		if err := burst(); err != nil {
+			return err
+		}
+	}
 	for pos < s.total {
 		left := s.total - pos
 		n := []int{1, 2, 7, 100, 1000, 4095, 4096, 4097, 8192, 16384, 70000, 1 + r.Intn(40000)}[r.Intn(12)]
@@ -101,7 +141,15 @@ func vsSend(s vsScenario, c Connection, r *rand.Rand, ops map[string]int) error 
 			n = left
 		}
 		var err error
-		switch k := r.Intn(11); k {
+		switch k := r.Intn(12); k {
+		case 11:
+			if left < 34*4096 {
+				continue
+			}
+			if err = burst(); err != nil {
+				return err
+			}
+			continue
 		case 0, 1:
 			ops["Malloc"]++
 			var p []byte
@@ -475,6 +523,12 @@ func vsRun(s vsScenario) (res vsResult) {
 	if s.poll {
 		return vsRunPoll(s)
 	}
+	if s.bidi {
+		return vsRunBidi(s)
+	}
+	if s.reply {
+		return vsRunReply(s)
+	}
 	res.ops = map[string]int{}
 	var opsMu sync.Mutex
 	rs := rand.New(rand.NewSource(int64(s.seed)*7919 + 1))
@@ -729,11 +783,51 @@ func vsScenarioOf(seed, id int, big bool) vsScenario {
 	}
 	sc := vsScenario{id: id, seed: seed*100000 + id, transport: []string{"pair", "pair", "tcp", "unix"}[r.Intn(4)],
 		handler: r.Intn(3) != 0, total: totals[r.Intn(len(totals))] + r.Intn(3), smallBuf: r.Intn(3) != 0, slowRead: r.Intn(2) == 0}
+	if sc.transport == "tcp" && sc.smallBuf && sc.total > 1<<20+2 {
+		// (-big only) a 4 KB TCP window moves some 50 KB/s on a loaded machine: 4 MB and more do not fit the 60 s deadline
+		sc.total = 1<<20 + r.Intn(3)
+	}
 	if id%6 == 2 {
 		// every sixth scenario: delays in front of the sender's epoll_ctl calls, every flush larger than the socket buffer
 		sc.jitter, sc.transport, sc.smallBuf = true, "pair", true
 		if sc.total < 200000 {
 			sc.total = 200000 + r.Intn(3)
+		}
+	}
+	if id%6 == 1 {
+		// every sixth scenario: both endpoints send more than the socket buffers hold and read, at the same time
+		sc.bidi, sc.smallBuf, sc.handlerB = true, true, r.Intn(2) == 0
+		sc.total = []int{200000, 300000, 400000}[r.Intn(3)] + r.Intn(3)
+		if sc.transport == "tcp" {
+			sc.total = 100000 + r.Intn(3) // a 4 KB TCP window moves ~40 KB/s per direction
+		}
+		if big && r.Intn(3) == 0 {
+			sc.smallBuf, sc.total = false, 8<<20+r.Intn(3)
+		}
+	}
+	if id%6 == 4 {
+		// every sixth scenario: the peer replies and ends its stream while our flush is parked
+		sc.reply = true
+		if sc.transport != "tcp" {
+			sc.transport = "pair"
+		}
+		sc.total = 200000 + r.Intn(3)
+		if !sc.smallBuf {
+			sc.total = 4<<20 + r.Intn(3)
+			if sc.transport == "tcp" {
+				sc.total = 16<<20 + r.Intn(3) // default TCP buffers auto-tune up to several MB
+			}
+		}
+	}
+	if id%6 == 3 || id%6 == 2 {
+		// one flush with more output nodes than the iovec barrier holds, first thing
+		sc.burst = true
+		if !sc.jitter {
+			// default socket buffers: one sendmsg can take more than barriercap nodes' worth
+			sc.smallBuf = false
+		}
+		if sc.total < 300000 && !sc.jitter {
+			sc.total = 300000 + r.Intn(3)
 		}
 	}
 	if id%6 == 5 {
@@ -796,8 +890,8 @@ func VerifStreamMain(args []string) int {
 			st = "FAIL " + o.r.reason
 			fail++
 		}
-		fmt.Printf("scn seed=%d id=%d transport=%s handler=%v poll=%v jitter=%v total=%d smallbuf=%v slow=%v got=%d ms=%d ops=%v :: %s\n",
-			*seed, i, o.s.transport, o.s.handler, o.s.poll, o.s.jitter, o.s.total, o.s.smallBuf, o.s.slowRead, o.r.got, o.r.ms, o.r.ops, st)
+		fmt.Printf("scn seed=%d id=%d transport=%s handler=%v poll=%v jitter=%v bidi=%v handlerB=%v reply=%v burst=%v total=%d smallbuf=%v slow=%v got=%d ms=%d ops=%v :: %s\n",
+			*seed, i, o.s.transport, o.s.handler, o.s.poll, o.s.jitter, o.s.bidi, o.s.handlerB, o.s.reply, o.s.burst, o.s.total, o.s.smallBuf, o.s.slowRead, o.r.got, o.r.ms, o.r.ops, st)
 	}
 	if fail > 0 {
 		return 1
